@@ -20,7 +20,7 @@ fn seed() -> u64 {
 
 /// Watchdog: a hang is never a violation. Generous bounds; exit 2.
 fn watchdog(tier: Tier) {
-    let secs = std::env::var("VERIF_WATCHDOG_S").ok().and_then(|s| s.parse().ok()).unwrap_or(match tier {
+    let secs = 60 + std::env::var("VERIF_WATCHDOG_S").ok().and_then(|s| s.parse().ok()).unwrap_or(match tier {
         Tier::Quick => 1800u64,
         Tier::Thorough => 6 * 3600,
     });
@@ -50,14 +50,36 @@ fn real_main() {
         "check" => {
             let id = args[2].clone();
             let tier = tier_of(args.get(3));
-            watchdog(tier);
+            let limit = std::env::var("VERIF_WATCHDOG_S").ok().and_then(|s| s.parse().ok()).unwrap_or(match tier {
+                Tier::Quick => 1800u64,
+                Tier::Thorough => 6 * 3600,
+            });
             let exe = std::env::current_exe().expect("current_exe");
-            let status = Command::new(&exe).args(["check-inner", &id, tier.name()]).status();
-            let status = match status {
-                Ok(s) => s,
+            let mut child = match Command::new(&exe).args(["check-inner", &id, tier.name()]).spawn() {
+                Ok(c) => c,
                 Err(e) => {
                     eprintln!("INCONCLUSIVE: cannot start the check process: {e}");
                     std::process::exit(2);
+                }
+            };
+            // watchdog: a hang is never a violation; the child is killed so that nothing is left running
+            let t0 = std::time::Instant::now();
+            let status = loop {
+                match child.try_wait() {
+                    Ok(Some(s)) => break s,
+                    Ok(None) => {
+                        if t0.elapsed().as_secs() > limit {
+                            let _ = child.kill();
+                            let _ = child.wait();
+                            eprintln!("INCONCLUSIVE property={id} : watchdog — no result after {limit} s (a hang is reported as inconclusive, never as a violation)");
+                            std::process::exit(2);
+                        }
+                        std::thread::sleep(std::time::Duration::from_millis(200));
+                    }
+                    Err(e) => {
+                        eprintln!("INCONCLUSIVE: waiting for the check process failed: {e}");
+                        std::process::exit(2);
+                    }
                 }
             };
             match status.code() {
@@ -75,6 +97,7 @@ fn real_main() {
         "check-inner" => {
             let id = args[2].clone();
             let tier = tier_of(args.get(3));
+            watchdog(tier);
             let mut ctx = Ctx::new(&id, tier, seed());
             if !props::run(&mut ctx) {
                 eprintln!("unknown property {id}");
